@@ -116,3 +116,20 @@ PROPS["C02"] = dict(
     exhaustive_axes="every bit of every tamperable field for messages <= 96 bytes; every truncation length",
     assumptions=ASSUME_COMMON + ["a random tamper verifies with probability <= 2^-100 (cryptographic assumption)", "valid tuples are produced by the library's own encrypt/sign functions (their conformance is C01/C04/C06)"],
 )
+
+PROPS["C18"] = dict(
+    name="c18", sources=["props/c18.cpp"], engine="enumerator",
+    builds=[("asan", "native")],
+    builds_thorough=[("asan", "native"), ("asan", "portable")],
+    level="exploration",
+    rule=("A scripted randombytes_implementation without `uniform` is installed before sodium_init and logs every request. (a) randombytes_uniform(n) for n in {0,1,2,3,5,..,2^k-1,2^k,2^k+1 (k=2..31), "
+          "2^31+-1, 2^32-1, 2^32-2, 300 random}: scripts of 0..4 rejected draws taken from {0, min-1, min/2, random<min} in every order followed by an accepted draw from {min, min+1, 2^32-1, random}; "
+          "oracle: result = first draw >= 2^32 mod n, modulo n, exact number of draws consumed, 0 with no draw for n<2. (b) randombytes_buf_deterministic for every length 0..1100 against the reference "
+          "ChaCha20-IETF keystream with nonce 'LibsodiumDRG' under 3 CPU masks. (c) 50 generating APIs (29 *_keygen, 3 X25519 key pairs, Ed25519 key pair, secretstream header, 2 sealed boxes, 5 password-hash "
+          "string functions, random Edwards/Ristretto points, random scalars with scripts forcing the rejection loop (>=L, zero, exactly L, L-1 with masked bits), randombytes_buf/random): output equals the "
+          "documented function of the served bytes (reference X25519 / Ed25519 / Ristretto / Base64 models), requested bytes >= secret size, replaying the same script reproduces the output, flipping one "
+          "served byte that the specification uses changes it. Non-trivial = uniform scripts with >=1 rejection; every deterministic length >= 1; every generator case; distinct = (n, script) / (len, mask) / (API, script seed)."),
+    exhaustive_axes="deterministic lengths 0..1100; rejection depth 0..4 with all orders of threshold-adjacent draws",
+    assumptions=ASSUME_COMMON + ["crypto_core_ed25519_random is compared with the library's own crypto_core_ed25519_from_uniform applied to the served bytes (the map itself is C07's claim)",
+                                 "bits a specification ignores (X25519 clamp bits, Ristretto top bits) are not used as perturbation positions"],
+)
